@@ -466,7 +466,18 @@ fn large_text(seed: u64, n: usize, alpha: u32) -> Vec<u8> {
     let mut t = Vec::with_capacity(n + 1);
     for _ in 0..n {
         x = x.wrapping_mul(6364136223846793005).wrapping_add(1442695040888963407);
-        t.push(1 + ((x >> 33) % alpha as u64) as u8);
+        if alpha >= 1000 {
+            // "read collection" mode: about every second symbol is the sentinel, so that the
+            // number of sentinel occurrences (each gets a rank of its own in the rank transform)
+            // exceeds 2^16 although the text has only alpha-1000 letters
+            if (x >> 40) & 1 == 0 {
+                t.push(0);
+            } else {
+                t.push(1 + ((x >> 33) % (alpha - 1000) as u64) as u8);
+            }
+        } else {
+            t.push(1 + ((x >> 33) % alpha as u64) as u8);
+        }
     }
     t.push(0);
     t
@@ -487,9 +498,9 @@ fn check_large(seed: u64, n: usize, alpha: u32, cc: &mut CaseCtx) {
 }
 
 fn large_cases(tier: Tier) -> Vec<(u64, usize, u32)> {
-    let mut v = vec![(1u64, 150_000usize, 255u32), (2, 230_000, 255), (3, 400_000, 255), (4, 300_000, 64)];
+    let mut v = vec![(1u64, 150_000usize, 255u32), (2, 230_000, 255), (3, 400_000, 255), (4, 300_000, 64), (9, 140_000, 1002)];
     if tier == Tier::Thorough {
-        v.extend([(5, 1_000_000, 255), (6, 500_000, 16), (7, 197_000, 255), (8, 210_000, 255)]);
+        v.extend([(5, 1_000_000, 255), (6, 500_000, 16), (7, 197_000, 255), (8, 210_000, 255), (10, 300_000, 1004), (11, 131_500, 1001)]);
     }
     v
 }
@@ -697,7 +708,7 @@ impl Prop for C03Prop {
             "sampled_grid_small": "s in 1..=n+1, k in {1,2,3,7,n,2n}; oracle array under sentinel order desc for every body length, asc for multi-sentinel bodies (quaternary sweeps: only bodies one symbol shorter than the bound)",
             "families": {"texts": ti::family_bodies(tier, b.sa3).len(), "max_len": ti::family_bodies(tier, b.sa3).iter().map(|b| b.len() + 1).max(),
                          "sampled": tier.pick("n<=140: s in {1,2,3,5,8,32,33,n,n+1} x k in {1,3,64,65,2n}, sentinel order desc", "n<=100: s in {1,2,3,4,5,7,8,16,31,32,33,64,n/2,n-1,n,n+1} x k in {1,2,3,7,64,65,128,n,2n}; 100<n<=300: s in {1,2,3,5,8,32,33,n,n+1} x k in {1,3,64,65,2n}; both sentinel orders")},
-            "large_texts": "fixed pseudo-random texts (LCG) of 150k-400k (thorough: up to 1M) symbols over 16/64/255-symbol alphabets: more than 2^16 distinct LMS substrings; suffix array checked for permutation and order only", "wide_alphabet": {"texts": ti::wide_alphabet_texts(tier).len(), "alphabet_plus_sentinels": "253..=258 and 256+{1,2,3,5}", "sampled": "s in {1,2,3,16,n} x k in {1,3,65,n}"},
+            "large_texts": "fixed pseudo-random texts (LCG) of 150k-400k (thorough: up to 1M) symbols over 16/64/255-symbol alphabets: more than 2^16 distinct LMS substrings; plus 'read collection' texts in which about every second symbol is the sentinel (more than 2^16 sentinel occurrences, i.e. rank alphabet beyond u16); suffix array checked for permutation and order only", "wide_alphabet": {"texts": ti::wide_alphabet_texts(tier).len(), "alphabet_plus_sentinels": "253..=258 and 256+{1,2,3,5}", "sampled": "s in {1,2,3,16,n} x k in {1,3,65,n}"},
             "accessors": {"sampled_owned_body_len {$,a,b}": format!("0..={}", tier.pick(6, 8)), "s": "1..=n+1", "k": "1,3", "sentinel_orders": "desc, and asc for multi-sentinel texts", "empty_arrays": "Vec::new(), SampledSuffixArray::default()"},
             "integer": {"types": "u8,u16,usize", "dense {1,2,3}^len.0": format!("1..={}", b.int3), "dense {1,2,3,4}^len.0": format!("1..={}", b.int4),
                         "families": "family words over {1,2}, value ranges 0..=254/255/256/300 as two stride permutations"}
